@@ -19,6 +19,7 @@ func init() {
 			{ID: "C11.R3", Floor: 6, Doc: "copy-on-write of host lists and cluster metadata", Run: c11r3},
 			{ID: "C11.R4", Floor: 4, Doc: "rotation: per-layer modulo in roundRobbin; Pick passes the atomic counter unreduced", Run: c11r4},
 			{ID: "C11.R5", Floor: 3, Doc: "replica lists handed to the token-aware generator are duplicate-free by construction (=C10.R1)", Run: c10r1},
+			{ID: "C11.R6", Floor: 4, Doc: "slices taken from published host/token snapshots are never written (no in-place filter, sort, shuffle or element store; helpers followed)", Run: ruleSharedSlices},
 		},
 	})
 }
